@@ -4,10 +4,12 @@ solver commands `de`, `nm`, `ctl` are forwarded to Drv/SolverDrv -/
 import MysticVerif.Basic.Proto
 import MysticVerif.Model.Dsl
 import MysticVerif.Model.Strategy
+import MysticVerif.Model.RefFmin
+import MysticVerif.Model.Powell
 import MysticVerif.Drv.SolverDrv
 
 namespace MysticVerif.DrvC08
-open MysticVerif MysticVerif.Strategy
+open MysticVerif MysticVerif.Strategy MysticVerif.Solver
 
 def parseName : String → Option Name
   | "Best1Exp" => some .Best1Exp | "Best1Bin" => some .Best1Bin | "Rand1Exp" => some .Rand1Exp
@@ -44,7 +46,123 @@ def handleStrat (args : List Val) : String := Id.run do
   let cross := match nm.cross with | .exp => "exp" | .bin => "bin"
   return s!"ok trial={pFss I'.trial} rs={pNs rs} used={r.2} cross={cross} namedbin={pB nm.namedBin}"
 
+/-! ### Nelder-Mead: `fmin (which ref|mystic) (cost (scalar e)) (x0 (..)) (xtol f) (ftol f) (maxiter n) (maxfun n)
+                          (zdelt f) (radius f)` -/
+
+def maxF (a b : Float) : Float := if a < b then b else a
+
+/-- `max(ravel(abs(sim[1:]-sim[0]))) <= xtol and max(abs(fsim[0]-fsim[1:])) <= ftol` -/
+def convF (xtol ftol : Float) (sim : List (List Float × Float)) : Bool :=
+  match sim with
+  | [] => false
+  | (x0, f0) :: rest =>
+    let dx := rest.foldl (fun m p => (List.zipWith (fun a b => (a - b).abs) p.1 x0).foldl maxF m) (-(1.0 / 0.0))
+    let df := rest.foldl (fun m p => maxF m (f0 - p.2).abs) (-(1.0 / 0.0))
+    decide (dx ≤ xtol) && decide (df ≤ ftol)
+
+/-- reference l.196-201: `(1+nonzdelt)*y[k]` if `y[k] != 0` else `zdelt` -/
+def refVal (zdelt : Float) (x0 : List Float) : List Float :=
+  x0.map fun y => if y != 0.0 then (1.0 + 0.05) * y else zdelt
+
+def hasTie (sim : List (List Float × Float)) : Bool :=
+  let es := sim.map Prod.snd
+  es.any fun e => (es.filter (· == e)).length > 1
+
+/-- did any simplex of the run carry two equal energies?  (replays `sim_{k+1} = sort (body sim_k)`) -/
+def tieScan (f : List Float → Float) (c : Coef Float) (mkVal : List Float → List Float) (x0 : List Float) (n : Nat) : Bool := Id.run do
+  let mut sim := sortByE ((x0, f x0) :: refRows f x0 (mkVal x0) 0)
+  let mut t := hasTie sim
+  for _ in [0:n] do
+    sim := sortByE (refBody f c sim).1
+    t := t || hasTie sim
+  return t
+
+def handleFmin (args : List Val) : String := Id.run do
+  let some which := (kw? args "which").bind Val.asSym? | return "bad-op"
+  let some cost := (kw? args "cost").bind SolverDrv.parseCost | return "bad-op"
+  let some x0 := (kw? args "x0").bind Val.asFloats? | return "bad-op"
+  let some xtol := (kw? args "xtol").bind Val.asFloat? | return "bad-op"
+  let some ftol := (kw? args "ftol").bind Val.asFloat? | return "bad-op"
+  let some maxiter := (kw? args "maxiter").bind Val.asNat? | return "bad-op"
+  let some maxfun := (kw? args "maxfun").bind Val.asNat? | return "bad-op"
+  let some zdelt := (kw? args "zdelt").bind Val.asFloat? | return "bad-op"
+  let some radius := (kw? args "radius").bind Val.asFloat? | return "bad-op"
+  let c : Coef Float := { one := 1.0, rho := 1.0, chi := 2.0, psi := 0.5, sigma := 0.5, n := Float.ofNat x0.length }
+  -- ties between energies make the order `numpy.argsort` returns unspecified: report them (every sorted simplex
+  -- passes through the convergence oracle)
+  let su : SolverDrv.Setup := { cost := cost, pen := none, cons := none, box := none }
+  let out : FminOut Float Float × Bool :=
+    if which == "ref" then
+      let r := refFmin cost.eval c (convF xtol ftol) (refVal zdelt) x0 maxiter maxfun
+      (r, tieScan cost.eval c (refVal zdelt) x0 (r.iterations - 1))
+    else
+      let r := mysticFmin su.obj c 0.0 (convF xtol ftol) (SolverDrv.mkVal none radius) x0 maxiter maxfun
+      (r, tieScan (fun y => cost.eval y + 0.0) c (SolverDrv.mkVal none radius) x0 (r.iterations - 1))
+  let r := out.1
+  let x := (r.sim.head?.map Prod.fst).getD []
+  let fhead := (r.sim.head?.map Prod.snd).getD (0.0 / 0.0)
+  let fmin := (minE (r.sim.map Prod.snd)).getD (0.0 / 0.0)
+  return s!"ok x={pFs x} fval={pF fhead} fmin={pF fmin} iter={r.iterations} fcalls={r.funcalls} warn={r.warnflag} tie={pB out.2} fsim={pFs (r.sim.map Prod.snd)}"
+
+/-! ### Powell: `powell (which ref|mystic) (x0 (..)) (direc ((..)..)) (ftol f) (maxiter n) (maxfun n) (fuel n)
+     (ls (((p..) (xi..) fret (x..) (xi..) ncalls) ..)) (fx (((x..) y) ..))`
+the line searches and the cost values are TABLES recorded from the real run (keys compared bit for bit); a miss
+poisons the run with NaN and shows up as a diverging request log -/
+
+def bitsEq (a b : List Float) : Bool := a.map Float.toBits == b.map Float.toBits
+
+structure LsRow where
+  p : List Float
+  xi : List Float
+  out : Powell.LsOut Float Float
+
+def parseLsRow : Val → Option LsRow
+  | .list [p, xi, fret, x, xi', .int n] => do
+    pure { p := ← p.asFloats?, xi := ← xi.asFloats?,
+           out := { fret := ← fret.asFloat?, x := ← x.asFloats?, xi := ← xi'.asFloats?, ncalls := n.toNat } }
+  | _ => none
+
+def parseFxRow : Val → Option (List Float × Float)
+  | .list [x, y] => do pure (← x.asFloats?, ← y.asFloat?)
+  | _ => none
+
+def nan : Float := 0.0 / 0.0
+
+def pReqs (l : List (List Float × List Float)) : String :=
+  "(" ++ " ".intercalate (l.map fun r => "(" ++ pFs r.1 ++ " " ++ pFs r.2 ++ ")") ++ ")"
+
+def handlePowell (args : List Val) : String := Id.run do
+  let some which := (kw? args "which").bind Val.asSym? | return "bad-op"
+  let some x0 := (kw? args "x0").bind Val.asFloats? | return "bad-op"
+  let some direc := (kw? args "direc").bind asFloatss? | return "bad-op"
+  let some ftol := (kw? args "ftol").bind Val.asFloat? | return "bad-op"
+  let some maxiter := (kw? args "maxiter").bind Val.asNat? | return "bad-op"
+  let some maxfun := (kw? args "maxfun").bind Val.asNat? | return "bad-op"
+  let some fuel := (kw? args "fuel").bind Val.asNat? | return "bad-op"
+  let some lsT := (kw? args "ls").bind Val.asList? |>.bind (·.mapM parseLsRow) | return "bad-op"
+  let some fxT := (kw? args "fx").bind Val.asList? |>.bind (·.mapM parseFxRow) | return "bad-op"
+  let ls : List Float → List Float → Powell.LsOut Float Float := fun p xi =>
+    match lsT.find? (fun r => bitsEq r.p p && bitsEq r.xi xi) with
+    | some r => r.out
+    | none => { fret := nan, x := p, xi := xi, ncalls := 0 }
+  let f : List Float → Float := fun x =>
+    match fxT.find? (fun r => bitsEq r.1 x) with
+    | some r => r.2
+    | none => nan
+  let conv : Float → Float → Bool := fun fx fval =>
+    fx == fval || decide (2.0 * (fx - fval) ≤ ftol * (fx.abs + fval.abs) + 1e-20)
+  let c : Powell.Cfg Float Float := { ls := ls, f := f, conv := conv, two := 2.0, twoE := 2.0, zeroE := 0.0,
+                                      maxiter := maxiter, maxfun := maxfun }
+  let r := if which == "ref" then Powell.refPowell c fuel x0 direc else Powell.mysticPowell c fuel x0 direc
+  match r with
+  | none => return "err fuel"
+  | some o =>
+    let s := o.st
+    return s!"ok x={pFs s.x} fval={pF s.fval} iter={s.iter} fcalls={s.fcalls} warn={o.warnflag} direc={pFss s.direc} reqs={pReqs s.reqs} exts={pFss s.exts}"
+
 def handle : Handler
+  | .sym "powell" :: args => handlePowell args
+  | .sym "fmin" :: args => handleFmin args
   | .sym "strat" :: args => handleStrat args
   | .sym "de" :: args => SolverDrv.handle (.sym "de" :: args)
   | .sym "nm" :: args => SolverDrv.handle (.sym "nm" :: args)
